@@ -21,6 +21,9 @@ RULE = (
     "contribution is partly present, or that cannot be loaded, is a torn read. Variant 'sampling': two concurrent "
     "sample_layer_filtered runs whose samplers define disjoint pixel sets of the same tiles. Non-trivial: at least two updates "
     "overlapped in time (an update_call logged while another updater was inside its update); distinct by case spec."
+    " Also: statement-boundary delays inside toasty's tile I/O; short histories in which updaters exit while others contend; a 105 s (d"
+    "ilated) and a real 2.6 s hold; updaters with different SLURM_* environments; 'stage' histories = the real MultiTanProcessor / Mult"
+    'iWcsProcessor in parallel with every input landing in the same tile(s), incl. one worker that starts late.'
 )
 ASSUMPTIONS = ["unique contribution ids make the history unambiguous", "body delay inside the critical section is legitimate caller behaviour"]
 MODES = {
